@@ -154,7 +154,22 @@ def _violate(r, desc, v, target, info=None):
     if k in ('OCTETSTRING',) and 'size' in con and hit:
         lo, hi = con['size']
         n = r.choice([max(0, lo - 1), hi + 1, hi + 40])
+        if isinstance(v, str) and r.random() < 0.5:
+            cur = bytes.fromhex(v)
+            return (cur + bytes(max(0, n - len(cur))))[:n].hex() if r.random() < 0.5 else (bytes(max(0, n - len(cur))) + cur)[-n or len(cur) + 1:].hex()
         return bytes(r.randrange(256) for _ in range(n)).hex()
+    if k in U.CHARS and 'alpha' in con and hit and (r.random() < 0.6 or 'size' not in con):
+        # one character outside the permitted alphabet, at the end, at the start or in the middle
+        outside = [c for c in U.ALPHABETS[k] + '\n\r \x00' if c not in con['alpha'] and
+                   (ord(c) < 128 or k in ('UTF8', 'BMP', 'UNIVERSAL'))] or ['\n']
+        ch = r.choice(outside + ['\n', '\n'])
+        text = v if isinstance(v, str) else ''
+        lo, hi = con.get('size', [0, None])
+        if not text or (hi is not None and len(text) < hi and r.random() < 0.3):
+            pos = len(text)
+            return text + ch
+        pos = r.choice([len(text) - 1, len(text) - 1, 0, len(text) // 2])
+        return text[:pos] + ch + text[pos + 1:]
     if k in U.CHARS and 'size' in con and hit:
         lo, hi = con['size']
         n = r.choice([max(0, lo - 1), hi + 1, hi + 40])
@@ -162,6 +177,12 @@ def _violate(r, desc, v, target, info=None):
     if k == 'BITSTRING' and 'size' in con and hit:
         lo, hi = con['size']
         n = r.choice([max(0, lo - 1), hi + 1, hi + 9])
+        if isinstance(v, str) and r.random() < 0.5:
+            # the closest foreign values: the same number with another length (leading zero bits added or removed)
+            if n > len(v):
+                return '0' * (n - len(v)) + v
+            if v[:len(v) - n].strip('0') == '':
+                return v[len(v) - n:]
         return ''.join(r.choice('01') for _ in range(n))
     if k in ('SEQ', 'SET'):
         out = dict(v)
